@@ -389,6 +389,36 @@ func (j *mulJudge) genCase(r *gen.RNG, i int) (ref.Bits, ref.Bits) {
 			return y, x
 		}
 		return x, y
+	case 13: // quotient / product aimed at the top of the coefficient range (just below Cmax) and at the 34/35-digit seam
+		var q *big.Int
+		switch r.Intn(3) {
+		case 0:
+			q = new(big.Int).Sub(ref.Cmax, new(big.Int).SetUint64(r.U64()>>uint(r.Intn(40))))
+		case 1:
+			q = new(big.Int).Add(ref.CmaxP1d10, new(big.Int).SetUint64(r.U64()>>uint(r.Intn(40))))
+		default:
+			q = new(big.Int).Sub(ref.Pow10(34), new(big.Int).SetUint64(r.U64()>>uint(r.Intn(40))))
+		}
+		cy := divisorShape(r)
+		if r.Bool() {
+			cy = big.NewInt(int64(r.Range(2, 99999)))
+		}
+		// cx ~ q*cy scaled to at most 34 digits: the quotient cx/cy then starts with the digits of q
+		t := new(big.Int).Mul(q, cy)
+		if m := ref.NumDigits(t) - 34; m > 0 {
+			t.Quo(t, ref.Pow10(m))
+			if r.Bool() {
+				t.Add(t, ref.One)
+			}
+		}
+		if t.Sign() == 0 || t.Cmp(ref.Cmax) > 0 {
+			t = big.NewInt(1)
+		}
+		if r.Chance(1, 3) {
+			// the product side: q-like coefficient times a short factor
+			return ref.Encode(sx, clampCoef(new(big.Int).Quo(q, cy)), r.Range(-300, 300)), ref.Encode(sy, cy, r.Range(-300, 300))
+		}
+		return ref.Encode(sx, t, r.Range(-300, 300)), ref.Encode(sy, cy, r.Range(-300, 300))
 	case 12: // both wide (256-bit product, 1e19 reduction loop)
 		a := new(big.Int).Sub(ref.Cmax, r.BigBelow(ref.Pow10(r.Range(1, 33))))
 		b := new(big.Int).Sub(ref.Cmax, r.BigBelow(ref.Pow10(r.Range(1, 33))))
